@@ -90,7 +90,6 @@ def run(prop, tier):
 
     # module with the real lambdas (callable supply): one call site per lambda and operator
     moddir = tlcrun.fresh_dir(common.outdir(prop, "mod"))
-    modpath = os.path.join(moddir, "c10_queries.py")
     jobs = []
     for i, lam in enumerate(lams):
         for j, op in enumerate(OPS):
@@ -103,16 +102,25 @@ def run(prop, tier):
     again = [j for j in jobs if j[3] == 0 and has_dict(lams[j[1]])]
     for (_, i, op, how) in reversed(again):
         jobs.append((len(jobs), i, op, how))
-    with open(modpath, "w") as f:
-        for (jid, i, op, how) in jobs:
-            if how == 2:
-                f.write(f"def q_{jid}(ds):\n    return ds.{op}({codec.src(lams[i])})\n\n\n")
-    spec = importlib.util.spec_from_file_location("c10_queries", modpath)
-    mod = importlib.util.module_from_spec(spec)
-    sys.modules["c10_queries"] = mod
+    # source recovery re-reads the defining file for every lambda: keep each generated module small
+    CHUNK = 400
+    by_chunk = {}
+    for (jid, i, op, how) in jobs:
+        if how == 2:
+            by_chunk.setdefault(jid // CHUNK, []).append((jid, i, op))
     import warnings
     warnings.filterwarnings("ignore", category=SyntaxWarning)
-    spec.loader.exec_module(mod)
+    mods = {}
+    for c, items in by_chunk.items():
+        mp_ = os.path.join(moddir, f"c10_queries_{c}.py")
+        with open(mp_, "w") as f:
+            for (jid, i, op) in items:
+                f.write(f"def q_{jid}(ds):\n    return ds.{op}({codec.src(lams[i])})\n\n\n")
+        spec = importlib.util.spec_from_file_location(f"c10_queries_{c}", mp_)
+        mod = importlib.util.module_from_spec(spec)
+        sys.modules[f"c10_queries_{c}"] = mod
+        spec.loader.exec_module(mod)
+        mods[c] = mod
 
     def run_jobs(joblist):
         out = []
@@ -133,7 +141,7 @@ def run(prop, tier):
             elif how == 1:
                 s = getattr(ds, op)(ast.parse(src).body[0].value)
             else:
-                s = getattr(mod, f"q_{jid}")(ds)
+                s = getattr(mods[jid // CHUNK], f"q_{jid}")(ds)
             q = s.query_ast
             if not (isinstance(q, ast.Call) and isinstance(q.func, ast.Name) and q.func.id == op and len(q.args) == 2
                     and codec.enc(q.args[0]) == codec.enc(ds.query_ast)):
